@@ -8,13 +8,18 @@ Lens == {0, 1, 2, 5, 34, 35, 36, 37, 69, 70, 71, 72, 73, 105, 106, 107, 141, 142
 Blanks == {0, 1, 4}
 Pads == {0, 7, 12}
 Body(n) == [i \in 1..n |-> IF i % 11 = 0 THEN 32 ELSE 97 + ((i * 7) % 26)]     \* few repeated substrings, inner spaces
+\* the blanks around the query: ASCII spaces, or (bk = 1, 2) the multi-byte U+00A0 / U+3000 mixed with a tab
+BlankSeq(k, bk) == IF k = 0 THEN <<>> ELSE IF bk = 0 THEN Spaces(k)
+                   ELSE IF bk = 1 THEN (IF k = 1 THEN <<194, 160>> ELSE <<194, 160, 9, 194, 133>> \o Spaces(k - 3))
+                   ELSE (IF k = 1 THEN <<227, 128, 128>> ELSE <<32, 227, 128, 128, 226, 128, 131>> \o Spaces(k - 3))
 Query(n, l, t) == Spaces(l) \o (IF n = 0 THEN <<>> ELSE [Body(n) EXCEPT ![1] = 115, ![n] = 122]) \o Spaces(t)
+QueryB(n, l, t, bk) == BlankSeq(l, bk) \o (IF n = 0 THEN <<>> ELSE [Body(n) EXCEPT ![1] = 115, ![n] = 122]) \o BlankSeq(t, IF bk = 1 THEN 2 ELSE bk)
 Offsets(len) == {-1} \cup {p \in 0..(len - 1) : len <= 80 \/ p < 6 \/ p > len - 6 \/ (p % 7 = 0) \/ (p \in 30..40) \/ (p \in 66..76)}
-VARIABLES n, l, t, pad, pos
-Init == /\ n \in Lens /\ l \in Blanks /\ t \in Blanks /\ pad \in Pads /\ pos = -2
-Next == pos = -2 /\ pos' \in Offsets(n + l + t) /\ UNCHANGED <<n, l, t, pad>>
+VARIABLES n, l, t, pad, pos, bk
+Init == /\ n \in Lens /\ l \in Blanks /\ t \in Blanks /\ pad \in Pads /\ pos = -2 /\ bk \in {0, 1, 2} /\ (bk # 0 => l + t > 0 /\ n \in {5, 36, 72, 106})
+Next == pos = -2 /\ pos' \in Offsets(Len(QueryB(n, l, t, bk))) /\ UNCHANGED <<n, l, t, pad, bk>>
 Check == pos # -2 =>
-  LET q == Query(n, l, t)  r == RenderLines(q, pos, pad) IN
+  LET q == QueryB(n, l, t, bk)  r == RenderLines(q, pos, pad) IN
   /\ RenderedLines(q, pos, pad, r.line1, r.line2)
   /\ EmitCases => PrintT(ToJson([kind |-> "case", q |-> q, pos |-> pos, pad |-> pad]))
 =============================================================================
